@@ -189,6 +189,11 @@ do_mhfin(const cmd *c)
         ev_int("sid", sid);
         ev_int("rc", (long long) (int) r);
         ev_str("dig", o.fault ? "" : hx);
+        if (!o.fault) { /* implementation-shaped: the context's own digest field (first member of all three context types) */
+                char hx2[80];
+                words_be_hex(s->ctx.p, nw, hx2);
+                ev_str("cdig", hx2);
+        }
         if (s->kind == 2)
                 ev_hex("mur", mur.p, o.fault ? 0 : 16);
         else
